@@ -1332,6 +1332,30 @@ def run(ctx: Ctx) -> None:
                 judge.fail(sh, Case(ty, body, 'state', via), o.cls, 'raised something that is not a NOTIFICATION', o, via)
             elif o.cls == 'notify' and tuple(int(x) for x in o.detail.split()) not in judge.defined:
                 judge.fail(sh, Case(ty, body, 'state', via), 'undefined-code', 'NOTIFICATION outside the defined table', o, via)
+    # what follows the read of the peer's OPEN in Peer._establish: the negotiation and its validation, on a neighbor like
+    # the shape's and on one with multi-session configured — a valid OPEN, or any OPEN the decoder lets through, is
+    # negotiated and accepted or refused with a NOTIFICATION
+    open_cases = [c for c in state_cases if c[0] == 1] + [(1, c.body) for c in valid_opens(rng, sh, 40 if quick else 600)]
+    ms = cap(68, b'')
+    for caps in ([ms], [ms, cap(65, u32(65001))], [cap(1, u16(1) + bytes([0, 1])), ms], [cap(131, b''), cap(65, u32(65001))], [ms, cap(131, b'')], [cap(68, bytes([1])), cap(1, u16(1) + bytes([0, 1]))], [cap(68, bytes([2])), cap(2, b'')]):
+        for layout in ('one-param', 'param-per-cap'):
+            b = open_body(65001, 180, bytes([2, 2, 2, 2]), caps, layout)
+            if b is not None:
+                open_cases.append((1, b))
+    seen_open: set = set()
+    for shape_ in (shapes[0], shapes[4]):
+        for _, body in open_cases:
+            for msess in (False, True):
+                if (shape_.name, msess, bytes(body)) in seen_open:
+                    continue
+                seen_open.add((shape_.name, msess, bytes(body)))
+                o = T.accept_open(shape_, body, msess)
+                ctx.evaluations += 1
+                ctx.count(f'open-acceptance:{"multi-session" if msess else "plain"}:{o.key()}')
+                if o.cls in ('raised', 'recursion', 'timeout'):
+                    judge.fail(shape_, Case(1, body, 'open-acceptance', 'multi-session' if msess else 'plain'), o.cls, 'the peer\'s OPEN was read, and its negotiation raised something that is not a NOTIFICATION (Peer._run resets the session without one)', o, o.stage + (':multi-session' if msess else ''))
+                elif o.cls == 'notify' and tuple(int(x) for x in o.detail.split()) not in judge.defined:
+                    judge.fail(shape_, Case(1, body, 'open-acceptance', 'multi-session' if msess else 'plain'), 'undefined-code', 'NOTIFICATION outside the defined table', o, o.stage)
     # the fast path of read_message (adj-rib-in off, no API consumer, route logging off): UPDATEs are not decoded,
     # the shared `_UPDATE` object goes to the handlers of the peer loop instead
     for ty, body, label in [(2, update(base_attrs(sh), v4nlri(1)), 'update'), (2, bytes(4), 'eor-v4'), (2, update(attr(0x80, 15, u16(2) + bytes([1]))), 'eor-v6'), (2, b'\x00', 'short'), (4, b'', 'keepalive'), (5, u16(1) + bytes([0, 1]), 'refresh')]:
@@ -1355,6 +1379,11 @@ def replay(path: str) -> int:
         rp['level'] = 'handler:fast-path'
     sh = T.build_shape(next(s for s in T.ALL_SPECS if s[0] == rp['shape']))
     body = bytes.fromhex(rp['body'])
+    if rp.get('stream') == 'open-acceptance':
+        o = T.accept_open(sh, body, rp.get('label') == 'multi-session')
+        print('OPEN', body.hex(), 'on', sh.name, '(multi-session configured)' if rp.get('label') == 'multi-session' else '')
+        print('Negotiated.received + validate:', o.canon(), o.note)
+        return 1 if o.cls in ('raised', 'recursion', 'timeout') else 0
     o1 = T.unpack_forced(sh, rp['type'], body)
     o2 = T.read_message(sh, rp['type'], body, fast=rp.get('level', '').endswith('fast-path'))
     print('type', rp['type'], 'shape', sh.name, 'body', len(body), 'bytes')
